@@ -241,12 +241,48 @@ def run_scripts(ctx, scripts, tag):
     tp = os.path.join(ctx.work, "gtraces-%s.ndjson" % tag)
     write_ndjson(sp, scripts)
     p = ctx.run_vh(["group", "-scripts", sp, "-out", tp, "-par", "32"], timeout=3000)
-    if p.returncode != 0:
+    if p.returncode != 0 and ("panic:" in p.stderr or "fatal error:" in p.stderr):
+        traces = isolate(ctx, scripts, tag, "group", "a group Reader / ConsumerGroup")
+    elif p.returncode != 0:
         raise Inconclusive("vh group failed: " + p.stderr[-2000:])
-    traces = split_traces(read_ndjson(tp))
+    else:
+        traces = split_traces(read_ndjson(tp))
     if len(traces) != len(scripts):
         raise Inconclusive("driver produced %d traces for %d scripts" % (len(traces), len(scripts)))
     return traces
+
+
+def isolate(ctx, scripts, tag, sub, what):
+    """Run every script in its own process; a script whose process dies with a panic of the library is a violation."""
+    from concurrent.futures import ThreadPoolExecutor
+
+    def one(k):
+        sp = os.path.join(ctx.work, "iso-%s-%d.ndjson" % (tag, k))
+        tp = os.path.join(ctx.work, "iso-%s-%d.t" % (tag, k))
+        write_ndjson(sp, [scripts[k]])
+        p = ctx.run_vh([sub, "-scripts", sp, "-out", tp, "-par", "1"], timeout=400)
+        if p.returncode != 0:
+            return k, None, p.stderr
+        return k, read_ndjson(tp), ""
+
+    with ThreadPoolExecutor(max_workers=16) as ex:
+        res = list(ex.map(one, range(len(scripts))))
+    keep_s, keep_t, died = [], [], 0
+    for k, evs, err in res:
+        if evs is not None:
+            keep_s.append(scripts[k])
+            keep_t.append(evs)
+            continue
+        if "panic:" not in err and "fatal error:" not in err:
+            raise Inconclusive("vh %s failed on %s: %s" % (sub, scripts[k]["id"], err[-1500:]))
+        died += 1
+        first = [x for x in err.splitlines() if x.startswith("panic:") or x.startswith("fatal error:")][:1]
+        if died <= 20:
+            rep = ctx.save_replay("%s-panic" % scripts[k]["id"], [("script.json", json.dumps(scripts[k])), ("stderr.txt", err[-8000:])])
+            ctx.violation("the library panicked while %s ran scenario %s: %s" % (what, scripts[k]["id"], first[0] if first else "panic"), rep,
+                          key="panic scenario=%s %s" % (scripts[k]["id"], first[0] if first else ""))
+    scripts[:] = keep_s
+    return split_traces([e for t in keep_t for e in t])
 
 
 def tid_of(out):
